@@ -27,18 +27,18 @@ structure Member where
   st : St
 deriving DecidableEq, Repr, Inhabited
 
-/-- What `Identity::renew` of the instance's own identity does. -/
+/-- What `Identity::renew` of the instance's own identity does (generations are `u16`: `bump` wraps). -/
 inductive Policy | none | bump | same | lose | sameEq | tie
 deriving DecidableEq, Repr, Inhabited
 
 def renew (p : Policy) (i : Id) : Option Id :=
   match p with
   | .none => Option.none
-  | .bump => some ⟨i.addr, i.gen + 1⟩
+  | .bump => some ⟨i.addr, (i.gen + 1) % 65536⟩
   | .same => some i
   | .lose => some ⟨i.addr, i.gen - 1⟩
   | .sameEq => some i
-  | .tie => some ⟨i.addr, i.gen + 1⟩
+  | .tie => some ⟨i.addr, (i.gen + 1) % 65536⟩
 
 /-- `new_identity.win_addr_conflict(&self.identity)` in `attempt_rejoin`: the identity type decides, and nothing
     obliges it to answer `false` for an identity equal to itself — flavour `sameEq` compares with `≥`. (Between
